@@ -283,11 +283,30 @@ func (e *auxExpect) auxRun(which int, rounds int) string {
 				}
 				if m, _ := seccomp.Action(v).MarshalText(); string(m) != e.actText[i] {
 					return fmt.Sprintf("Action(%#x).MarshalText() = %q, alone %q", v, m, e.actText[i])
+				} else if which == 1 {
+					// the caller owns what it was given: scribbling over the returned bytes must not change
+					// what the next conversion returns (one goroutine only, so that this is not itself a race)
+					for k := range m {
+						m[k] = '#'
+					}
+					if m2, _ := seccomp.Action(v).MarshalText(); string(m2) != e.actText[i] {
+						return fmt.Sprintf("Action(%#x).MarshalText() = %q after the caller overwrote the bytes returned by the previous call; before %q", v, m2, e.actText[i])
+					}
 				}
 			}
 			for f := range e.flagText {
 				if s := seccomp.FilterFlag(f).String(); s != e.flagText[f] {
 					return fmt.Sprintf("FilterFlag(%d).String() = %q, alone %q", f, s, e.flagText[f])
+				}
+				if which == 1 {
+					if m, _ := seccomp.FilterFlag(f).MarshalText(); string(m) == e.flagText[f] {
+						for k := range m {
+							m[k] = '#'
+						}
+						if m2, _ := seccomp.FilterFlag(f).MarshalText(); string(m2) != e.flagText[f] {
+							return fmt.Sprintf("FilterFlag(%d).MarshalText() = %q after the caller overwrote the bytes returned by the previous call", f, m2)
+						}
+					}
 				}
 			}
 			// combined values that nobody in this process has converted before (a conversion must not
